@@ -25,6 +25,10 @@ import (
 	"fmt"
 	"hash"
 	"math/big"
+	"os"
+	"os/exec"
+	"strconv"
+	"strings"
 	"time"
 
 	"github.com/gauss-project/aurorafs/pkg/boson"
@@ -453,13 +457,86 @@ func checkRecovered(S uint64, o obs, jc jcase) {
 	}
 }
 
-func doStrip(jc jcase) {
+// probeStrip runs the store call for one span in a child process: a broken length computation can
+// ask for an allocation that kills the process (fatal out-of-memory is not recoverable), and that
+// must become an observation, not a dead harness.
+func probeStrip(S uint64) obs {
+	exe, err := os.Executable()
+	if err != nil {
+		return obs{Class: "crash"}
+	}
+	cmd := exec.Command(exe)
+	cmd.Env = append(os.Environ(), "C08_PROBE="+strconv.FormatUint(S, 10))
+	out, err := cmd.Output()
+	f := strings.Fields(string(out))
+	if err != nil || len(f) != 3 || f[0] != "C08PROBE" {
+		return obs{Class: "crash"}
+	}
+	n, _ := strconv.ParseUint(f[2], 10, 64)
+	return obs{Class: f[1], Len: n}
+}
+
+// child side of probeStrip; content is verified here, the parent gets class and length
+func probeMain(v string) {
+	S, _ := strconv.ParseUint(v, 10, 64)
+	initFixed()
 	ref := append(append([]byte{}, pattern(1, 32)...), fixedKey...)
-	o := storeGet(ref, fabricate(jc.Span, chunkSize), true)
-	coq := hx.CoqApp("CStrip", hx.CoqN(jc.Span), hx.CoqN(chunkSize), robsN(o))
+	o := storeGet(ref, fabricate(S, chunkSize), true)
+	if o.Class == "ok" && (len(o.Data) < 8 || len(o.Data)-8 > len(fixedPlain) || binary.LittleEndian.Uint64(o.Data[:8]) != S || !bytes.Equal(o.Data[8:], fixedPlain[:len(o.Data)-8])) {
+		o.Class = "badcontent"
+	}
+	fmt.Printf("C08PROBE %s %d\n", o.Class, o.Len)
+}
+
+// set when a child-process probe was killed: in-process store calls on spans of height >= 3 are skipped
+// from then on (the violation is already recorded)
+var bigSpanUnsafe bool
+
+func skipUnsafe(S uint64) bool { return bigSpanUnsafe && S > chunkSize*encBranches*encBranches }
+
+func doStrip(jc jcase) {
+	var o obs
+	big3 := jc.Span > chunkSize*encBranches*encBranches // a wrong loop can ask for up to 2^52 bytes here
+	if big3 {
+		o = probeStrip(jc.Span)
+	} else {
+		ref := append(append([]byte{}, pattern(1, 32)...), fixedKey...)
+		o = storeGet(ref, fabricate(jc.Span, chunkSize), true)
+	}
+	ob := robsN(o)
+	if o.Class == "crash" || o.Class == "badcontent" {
+		ob = "RPanic"
+	}
+	if o.Class == "crash" {
+		bigSpanUnsafe = true
+	}
+	coq := hx.CoqApp("CStrip", hx.CoqN(jc.Span), hx.CoqN(chunkSize), ob)
 	run.AddCase(coq, jc, fmt.Sprintf("strip|%d", jc.Span), jc.Span > chunkSize)
 	run.Hist("strip." + spanClass(jc.Span))
-	checkRecovered(jc.Span, o, jc)
+	if big3 {
+		checkRecoveredLen(jc.Span, o, jc)
+	} else {
+		checkRecovered(jc.Span, o, jc)
+	}
+}
+
+// as checkRecovered, for an observation made in a child process (content already compared there)
+func checkRecoveredLen(S uint64, o obs, jc jcase) {
+	if S > ^uint64(0)-chunkSize+1 {
+		return
+	}
+	run.OracleChecked(1)
+	want := uint64(refSize) * rootRefs(chunkSize, encBranches, S)
+	switch {
+	case o.Class == "crash":
+		run.Violate(hx.Violation{Sig: "store:intermediate:process-killed", Detail: fmt.Sprintf("Get on encrypted chunk with span %d kills the process (allocation of the recovered length)", S), Case: jc})
+	case o.Class == "badcontent":
+		run.Violate(hx.Violation{Sig: "store:intermediate:decrypted-content-differs", Detail: fmt.Sprintf("span %d", S), Case: jc})
+	case o.Class != "ok":
+		run.Violate(hx.Violation{Sig: "store:intermediate:" + o.Class, Detail: fmt.Sprintf("Get on encrypted chunk with span %d -> %s", S, o.Class), Case: jc})
+	case o.Len != 8+want:
+		run.Violate(hx.Violation{Sig: "store:intermediate:recovered-length!=stored-length", Detail: fmt.Sprintf("span %d: payload length %d, the writer stores %d", S, o.Len-8, want), Case: jc, Impl: o.Len - 8, Want: want})
+	}
 }
 
 func spanClass(S uint64) string {
@@ -481,6 +558,9 @@ func spanClass(S uint64) string {
 }
 
 func doGet(jc jcase) {
+	if skipUnsafe(jc.Span) {
+		return
+	}
 	ref := pattern(3, jc.RefLen)
 	if jc.RefLen == 64 {
 		copy(ref[32:], fixedKey)
@@ -514,6 +594,9 @@ func doGet(jc jcase) {
 // ---------------------------------------------------------------- real EncryptChunk -> store
 
 func doChunk(jc jcase) {
+	if skipUnsafe(jc.Span) {
+		return
+	}
 	// kind chunk: Span = span, Len = payload length (leaf: Len == Span; intermediate: Len == 64*refs)
 	payload := pattern(jc.Seed, jc.Len)
 	cd := make([]byte, 8+len(payload))
@@ -1071,6 +1154,10 @@ func randSpan(r *hx.Rand) uint64 {
 }
 
 func main() {
+	if v := os.Getenv("C08_PROBE"); v != "" {
+		probeMain(v)
+		return
+	}
 	run = hx.Start("C08", "Aurora.C08.Corr",
 		"op sequences on encryption.New objects with a toy hash (key/digest/padding/counter classes, lengths at segment and padding boundaries); fabricated encrypted chunks with spans at every level boundary +-1, 2^63, the uint64 wrap region and random magnitudes through the real decrypting store; hashtrie writer runs at branching 2..5 and 4096 over a recording stage that processes Data[:8]; the writer at production parameters over the REAL encryption->bmt->store short chain fed up to 3*4096 leaf references (two intermediate levels) with every stored chunk read back through the decrypting store; real EncryptChunk and encrypted uploads walked through the store. non-trivial = payload longer than one key segment / span above ChunkSize (intermediate chunk) / trie run that stores at least one intermediate chunk; distinct by full input")
 	if boson.ChunkSize != chunkSize || encryption.ReferenceSize != refSize || boson.Branches/2 != encBranches {
